@@ -5,6 +5,12 @@ ROOT = os.path.dirname(os.path.dirname(os.path.abspath(__file__)))
 TRUST = ("TLC 1.8.0 + CommunityModules; the harness's independent raw-socket codec and recording handlers; bounds as in the "
          "spec/mc/*.cfg named in the evidence; default cargo features plus vhost-kern/vdpa/net/vsock (xen, postcopy excluded)")
 CLAIMS = {
+ "C19": ("exploration", "2/C19",
+   "KernBackend.tla carries the UAPI (ioctl numbers, argument layouts, IOTLB v1/v2 selection by acknowledged features, refusal classes) "
+   "and is cross-checked by TLC against a C program compiled with the installed <linux/vhost.h>; TLC enumerates operations x classes x "
+   "states, the harness runs them on the real backends with ioctl interposed, TLC validates every recorded (request, argument bytes, "
+   "returned value, IOTLB message).",
+   "TLA+ catalogue of the UAPI cross-checked with the C header + TLC trace validation of interposed ioctls"),
  "C09": ("fault_enumeration", "2/C09",
    "Every connection of the TLC-enumerated hostile-input spaces (request server, frontend reply readers, backend-request channel, GPU "
    "proxy; descriptors on headers, bodies, beyond the limit, on messages that take none) ends in a teardown at which the process's open "
